@@ -26,7 +26,23 @@ F3(e, md) ==
      ELSE /\ e.n <= 38 /\ e.out.f = e.n
           /\ Num(e.out) = S!RoundQS(BMul(Num(e.x), BPow10(e.n)), Num(e.y), md)
 
+(* F13 (C03 C04 C10): the primitive integer i128::MIN = -2^127 as an operand of a division or remainder.  It is a legal    *)
+(* integer operand (the statements quantify over all i128 values) although no Decimal has that coefficient.  The sign      *)
+(* normalisations of fpdec-core/src/rounding.rs (i128_div_rounded, i128_shifted_div_rounded: `divisor = -divisor`,          *)
+(* `divident = -divident`) and the magnitude computations of the wide path negate it: debug builds panic (also in          *)
+(* checked_div, which must never panic), release builds wrap and return unspecified values.  `i128::MIN % Decimal(-1)`      *)
+(* reaches the primitive `i128::MIN % -1`, which panics in every build (also in checked_rem).  Site condition = the        *)
+(* operand; for the division family every outcome at that site is part of the finding (the release build's results are    *)
+(* unspecified), for the remainder exactly the panic.                                                                      *)
+F13(e, md) ==
+  /\ e.ev = "bin"
+  /\ LET minL == e.xt = "i128" /\ Num(e.x) = I128Min
+         minR == e.yt = "i128" /\ Num(e.y) = I128Min
+     IN \/ (e.op \in {"div", "checked_div", "div_rounded", "quantize"} /\ (minL \/ minR))
+        \/ (e.op \in {"rem", "checked_rem"} /\ minL /\ e.yt = "dec" /\ e.y.s = -1 /\ e.y.m = <<1>> /\ e.y.f = 0 /\ e.out.k = "panic")
+
 Explains(k, e, md) ==
   CASE k = "F3" -> F3(e, md)
+    [] k = "F13" -> F13(e, md)
     [] OTHER -> FALSE
 =======================================================================
